@@ -138,7 +138,12 @@ func (p *projector) content(n *SNode, key *string, inherited string, forceOption
 			props, from := p.FlatProps(n)
 			for i, pr := range props {
 				k := pr.Key
-				ch = append(ch, p.content(pr.Node, &k, from[i], false))
+				c := p.content(pr.Node, &k, from[i], false)
+				if pr.KeyRef {
+					c.Keys = append(c.Keys, "isKeyUserTypeRef")
+					c.Vals = append(c.Vals, boolean(true))
+				}
+				ch = append(ch, c)
 			}
 		} else {
 			for _, it := range n.Items {
@@ -210,6 +215,9 @@ func (p *projector) used(n *SNode, out *[]string) {
 			add(a)
 		}
 		for _, pr := range n.Props {
+			if pr.KeyRef {
+				add(pr.Key)
+			}
 			p.used(pr.Node, out)
 		}
 	case "array":
@@ -254,6 +262,9 @@ func (p *projector) example(n *SNode) (text string, exact bool) {
 			}
 			var parts []string
 			for _, pr := range n.Props {
+				if pr.KeyRef {
+					exact = false
+				}
 				parts = append(parts, "\""+pr.Key+"\":"+rec(pr.Node))
 			}
 			return "{" + strings.Join(parts, ",") + "}"
